@@ -2,7 +2,8 @@ from checks import both, EX
 
 CHECK = {
     'level': 'exploration',
-    'rule': ('closure generator: every operation of the slist alphabet (push_front/push_back/insert_after/'
+    'rule': ('[runs and re-entrancy] sort inputs with run structure (runs of decreasing/increasing/equal length, > 1024 runs, sawtooth, organ pipe; 820..32767 elements, thorough 200000) sorted ascending and descending through priv, in every second case the comparator sorts another list; foreach visitors call size/front/back(/find) and a nested foreach on the same and on another list; every second case runs with an allocator that refuses everything; '
+             'closure generator: every operation of the slist alphabet (push_front/push_back/insert_after/'
              'erase_after/pop_front incl. empty/reverse/sort/concat/swap/foreach/clear) applied in every reachable '
              'state of 1-3 lists over a small element pool, plus seeded random histories where every op is followed '
              'by a push_back probe with probability 1/2; after every call the lists are audited against a reference '
